@@ -116,7 +116,7 @@ theorem sift_last_nonoscillatory (I : Nat → Sig → Sig × Sig) (D : Sig → S
     (cp th : Bool) (h : sift (extractorIx (envOf I) D o) thr cap x fuel = (cols, .done true cp th)) :
     ∃ c, cols.getLast? = some c ∧ (peaks c < 2 ∨ troughs c < 2) := by
   obtain ⟨init, c, rfl, _, hc, _⟩ :=
-    siftLoop_done _ thr cap x fuel [] x cols true cp th (resid_nil x).symm h
+    siftLoop_done (fun _ => extractorIx (envOf I) D o) thr cap x fuel [] x cols true cp th (resid_nil x).symm h
   refine ⟨c, by simp, ?_⟩
   simp only [extractorIx, Bool.not_true] at hc
   cases hr : getNextImfIx (envOf I) D o (resid x init) with
